@@ -1117,4 +1117,46 @@ theorem reachable_runChoices {cfg : Cfg} {s s' : State} (l : List (Nat × Nat))
       exact ih (Reachable.step h ho) hr
     · simp at hr
 
+/-! ### the idle counter -/
+
+/-- between `++idle_` and `--idle_`: the worker is (about to be) waiting for jobs -/
+def idlePc : Pc → Bool
+  | .wLoadTerm2 | .wWait | .wWaiting | .wIdleDec => true
+  | _ => false
+
+def inIdle (th : Thread) : Bool := idlePc th.pc
+
+theorem idlePc_eq (pc : Pc) :
+    idlePc pc = (pc == .wLoadTerm2 || pc == .wWait || pc == .wWaiting || pc == .wIdleDec) := by
+  cases pc <;> rfl
+@[simp] theorem idlePc_mainJoinPc (cfg : Cfg) : idlePc (mainJoinPc cfg) = false := by
+  rcases mainJoinPc_cases cfg with h | h <;> rw [h] <;> rfl
+@[simp] theorem idlePc_mainScriptPc (cfg : Cfg) : idlePc (mainScriptPc cfg) = false := by
+  rcases mainScriptPc_cases cfg with h | h | h <;> rw [h] <;> rfl
+@[simp] theorem idlePc_endOfScript (cfg : Cfg) (th : Thread) : idlePc (endOfScript cfg th).pc = false := by
+  unfold endOfScript; cases th.role <;> first | rfl | exact idlePc_mainJoinPc cfg
+@[simp] theorem idlePc_call (k : Nat) (c : CPc) : idlePc (.call k c) = false := rfl
+
+theorem idle_step {cfg : Cfg} {s : State} {t c : Nat} {o} (h : step cfg s t c = some o)
+    (hi : s.idle = s.thr.countP inIdle) : o.st.idle = o.st.thr.countP inIdle := by
+  pool_step_cases h
+  all_goals (
+    have hlt := lt_of_getElem? ‹s.thr[t]? = some _›
+    have hth := getT_of_getElem? ‹s.thr[t]? = some _›
+    have hge := getElem_eq_getT hlt
+    simp only [setThr_thr]
+    rw [countP_set' _ _ _ _ hlt, hge, hth]
+    simp only [inIdle]
+    (try simp only [idlePc_mainScriptPc, idlePc_mainJoinPc, idlePc_endOfScript, idlePc_call])
+    simp_all [idlePc_eq])
+  all_goals (first
+    | (have := one_le_countP inIdle s.thr t hlt (by rw [hge]; simp [inIdle, idlePc_eq, *]); omega)
+    | skip)
+
+theorem reachable_idle {cfg : Cfg} {s : State} (h : Reachable cfg s) : s.idle = s.thr.countP inIdle := by
+  induction h with
+  | init => rw [countP_init_zero cfg inIdle (by intro th h; simp [inIdle, idlePc_eq, h])]; rfl
+  | step _ hs ih => exact idle_step hs ih
+
+
 end TlxVerif.C10
